@@ -2,15 +2,17 @@
 
 use crate::core::{RunCtx, harness_error};
 
+pub mod c05;
 pub mod c12;
 pub mod c13;
 pub mod c14;
 pub mod c20;
 
-pub const ALL: &[&str] = &["C12", "C13", "C14", "C20"];
+pub const ALL: &[&str] = &["C05", "C12", "C13", "C14", "C20"];
 
 pub fn run(id: &str, ctx: &RunCtx) -> i32 {
     match id {
+        "C05" => c05::run(ctx),
         "C12" => c12::run(ctx),
         "C13" => c13::run(ctx),
         "C14" => c14::run(ctx),
@@ -35,6 +37,7 @@ pub fn replay(path: &str) -> i32 {
     };
     let prop = v["property"].as_str().unwrap_or("");
     match prop {
+        "C05" => c05::replay(&v),
         "C12" => c12::replay(&v),
         "C13" => c13::replay(&v),
         "C14" => c14::replay(&v),
